@@ -391,9 +391,11 @@ def c19(res):
     graphs += [force_sentinel(gg.random_forest(rng, "F3-%d" % i, 4, 9)) for i in range(15 if q else 150)]
     # some graphs without the sentinel so that "all properties discovered" endings occur in the status view
     graphs += [gg.random_graph(rng, "F2n-%d" % i, 3, 8, sentinel=False) for i in range(15 if q else 150)]
-    for g in graphs:
+    for gi_, g in enumerate(graphs):
         for p in g["props"]:
-            if p["kind"] == "eventually":           # exactness of eventually verdicts is not part of C19
+            # exactness of eventually verdicts is not part of C19 (their reported paths must still be genuine witnesses):
+            # two thirds of the graphs get always / sometimes properties only
+            if p["kind"] == "eventually" and gi_ % 3 != 0:
                 p["kind"] = rng.choice(["always", "sometimes"])
     items = []
     nweb = 0
